@@ -1,40 +1,50 @@
 use std::{
     io::{self, BufRead},
     num::NonZero,
+    str,
 };
 
-use super::read_line;
+use super::read_line_bytes;
 use crate::fai::Record;
 
-const FIELD_DELIMITER: char = '\t';
+const FIELD_DELIMITER: u8 = b'\t';
 const MAX_FIELDS: usize = 5;
 
 pub(super) fn read_record<R>(
     reader: &mut R,
-    buf: &mut String,
+    buf: &mut Vec<u8>,
     record: &mut Record,
 ) -> io::Result<usize>
 where
     R: BufRead,
 {
-    match read_line(reader, buf)? {
+    match read_line_bytes(reader, buf)? {
         0 => Ok(0),
         n => {
-            *record = parse_record(buf)?;
+            *record = parse_record_bytes(buf)?;
             Ok(n)
         }
     }
 }
 
+#[cfg(test)]
 pub(crate) fn parse_record(s: &str) -> io::Result<Record> {
-    if s.is_empty() {
+    parse_record_bytes(s.as_bytes())
+}
+
+pub(crate) fn parse_record_bytes(src: &[u8]) -> io::Result<Record> {
+    if src.is_empty() {
         return Err(io::Error::new(io::ErrorKind::InvalidData, "empty input"));
     }
 
-    let mut fields = s.splitn(MAX_FIELDS, FIELD_DELIMITER);
+    let mut fields = src.splitn(MAX_FIELDS, |&b| b == FIELD_DELIMITER);
 
-    let name = parse_string(&mut fields)
+    // The name is a byte string. Only the numeric fields are text.
+    let name = fields
+        .next()
         .ok_or_else(|| io::Error::new(io::ErrorKind::InvalidData, "missing name"))?;
+
+    let mut fields = fields.map(str::from_utf8);
 
     let base_count = parse_u64(&mut fields)
         .transpose()?
@@ -61,30 +71,31 @@ pub(crate) fn parse_record(s: &str) -> io::Result<Record> {
     ))
 }
 
-fn parse_string<'a, I>(fields: &mut I) -> Option<&'a str>
-where
-    I: Iterator<Item = &'a str>,
-{
-    fields.next()
-}
-
 fn parse_u64<'a, I>(fields: &mut I) -> Option<io::Result<u64>>
 where
-    I: Iterator<Item = &'a str>,
+    I: Iterator<Item = Result<&'a str, str::Utf8Error>>,
 {
-    fields.next().map(|s| {
-        s.parse()
+    fields.next().map(|result| {
+        result
             .map_err(|e| io::Error::new(io::ErrorKind::InvalidData, e))
+            .and_then(|s| {
+                s.parse()
+                    .map_err(|e| io::Error::new(io::ErrorKind::InvalidData, e))
+            })
     })
 }
 
 fn parse_nonzero_u64<'a, I>(fields: &mut I) -> Option<io::Result<NonZero<u64>>>
 where
-    I: Iterator<Item = &'a str>,
+    I: Iterator<Item = Result<&'a str, str::Utf8Error>>,
 {
-    fields.next().map(|s| {
-        s.parse()
+    fields.next().map(|result| {
+        result
             .map_err(|e| io::Error::new(io::ErrorKind::InvalidData, e))
+            .and_then(|s| {
+                s.parse()
+                    .map_err(|e| io::Error::new(io::ErrorKind::InvalidData, e))
+            })
     })
 }
 
